@@ -19,6 +19,27 @@ HOOKS = {
 }
 
 PROPS = {
+    "C05": {
+        "bin": "c05",
+        "explanation": "Bounded symbolic checking in mode O of every non-extrapolating strategy (Linear, five CubicSpline boundary selections incl. Periodic, Bilinear) behind every "
+                       "entry point: axis values are solver variables under x_i < x_i+1, data and every query element are unconstrained IEEE doubles. For each feasible path z3 "
+                       "(FloatingPoint theory, bit-precise comparisons) proves Ok => every element in the closed range and OutOfBounds => some element outside (NaN counts as outside); "
+                       "panic paths must be infeasible or are replayed natively.",
+        "trusted_base": O_TRUST,
+        "technique": "symbolic execution of the real generic code at a term-recording scalar + z3 QF_FP (IEEE comparisons bit-precise, arithmetic uninterpreted) over all axis values, data and queries incl. NaN/inf",
+        "level_text": "Bounded symbolic model checking over ALL IEEE doubles for axis, data and queries (NaN, +-inf, +-0 and the floats adjacent to the range ends are ordinary values of the sort), all strategies, 8 entry-point shapes incl. the rank-1 fast path and the general path, batches of 2 (thorough 3, 2x2). Right level: the property is purely about comparisons and control flow, which the solver decides bit-precisely for every value.",
+        "level_note": "Trusted: engine S, z3 FP theory. Assumes C11 (engine K) for the cast of the index guess on non-NaN in-range lookups (cut branches are counted in the evidence). n <= 3 quick / 4 thorough.",
+    },
+    "C06": {
+        "bin": "c06",
+        "explanation": "Layer A (mode R): with extrapolate(true) and an unconstrained real query the Linear result satisfies the cross-multiplied line equation of the border bracket (symbolic axis), "
+                       "the Bilinear result the blend equation of the border cell (concrete axes), and the CubicSpline term left/right of the range is the first/last in-range piece as a polynomial in q. "
+                       "Layer D (mode O): no non-NaN query is rejected or panics, and in-range results are the same IEEE value as those of a non-extrapolating twin built from the same symbols inside one execution.",
+        "trusted_base": R_TRUST + O_TRUST[1:],
+        "technique": "symbolic execution at a term-recording scalar + z3: QF_NRA for the end-piece identities, QF_FP (uninterpreted arithmetic) for outcomes and in-range bit-identity",
+        "level_text": "Bounded symbolic model checking of both the algebra of the continuation (all data, all queries on either side, 2-D outside in x, y or both) and the discrete behaviour (never rejected, in-range bit-identity) for all values within the size bounds.",
+        "level_note": "Trusted: engine S, z3. Real-number semantics for values; overflow far outside not covered; NaN queries with extrapolation panic by design and are excluded (the property speaks of finite queries). Assumes C11 for index-guess casts.",
+    },
     "C01": {
         "bin": "c01",
         "explanation": "Bounded symbolic checking of the real Linear strategy behind every 1-D entry point, instantiated at the term-recording scalar in mode R "
